@@ -357,14 +357,16 @@ func (ux *updateTx) ApplyContracts(index types.ChainIndex, state contracts.State
 // RevertContracts reverts relevant contract changes from the contract
 // store
 func (ux *updateTx) RevertContracts(index types.ChainIndex, state contracts.StateChanges) error {
-	if err := revertContractFormation(ux.tx, state.Confirmed); err != nil {
-		return fmt.Errorf("failed to revert contract formation: %w", err)
-	} else if err := applyContractRevision(ux.tx, state.Revised); err != nil { // note: this is correct. The previous revision is being applied
+	// formations are reverted last: a contract formed and resolved in the same
+	// block is active again only after its resolution has been reverted
+	if err := applyContractRevision(ux.tx, state.Revised); err != nil { // note: this is correct. The previous revision is being applied
 		return fmt.Errorf("failed to revert contract revisions: %w", err)
 	} else if err := revertSuccessfulContracts(ux.tx, state.Successful); err != nil {
 		return fmt.Errorf("failed to revert contract resolution: %w", err)
 	} else if err := revertFailedContracts(ux.tx, state.Failed); err != nil {
 		return fmt.Errorf("failed to revert contract failures: %w", err)
+	} else if err := revertContractFormation(ux.tx, state.Confirmed); err != nil {
+		return fmt.Errorf("failed to revert contract formation: %w", err)
 	}
 
 	// v2
